@@ -124,6 +124,18 @@ theorem replayOp_inv {sc sc' : Scope} (op : Naming.TraceOp) (h : SInv sc)
       simp only [hr, Except.map, Except.ok.injEq] at hs
       subst hs
       exact ⟨reserve_inv h.1 hr, h.2⟩
+  | maybeEnumNode b =>
+    simp only [Naming.replayOp, Except.ok.injEq] at hs
+    subst hs
+    exact ⟨h.1, by show Scope.Inv _; unfold Scope.Inv; rw [maybeEnum_frames]; exact h.2⟩
+  | reserveNode n =>
+    simp only [Naming.replayOp] at hs
+    cases hr : sc.node.reserve n with
+    | error e => simp [hr, Except.map] at hs
+    | ok v =>
+      simp only [hr, Except.map, Except.ok.injEq] at hs
+      subst hs
+      exact ⟨h.1, reserve_inv h.2 hr⟩
 
 theorem replay_inv {sc sc' : Scope} (ops : List Naming.TraceOp) (h : SInv sc)
     (hs : Naming.replay sc ops = .ok sc') : SInv sc' := by
@@ -137,22 +149,27 @@ theorem replay_inv {sc sc' : Scope} (ops : List Naming.TraceOp) (h : SInv sc)
     · cases hs
 
 /-- **Naming of a build.** After any successful sequence of the naming calls a build performs
-    (`Scope.update` for arguments and nodes, `maybe_enum` + `reserve` for the internals of inlined
-    models — in any order, any prefixes, any preset names): all value names handed out — names of Vars
-    and reserved internals together — are pairwise distinct, and all node names given through the
-    node namespace are pairwise distinct.
+    (`Scope.update` for arguments and nodes, `maybe_enum` + `reserve` for the internal values and
+    nodes of inlined models — in any order, any prefixes, any preset names): all value names handed
+    out — names of Vars and reserved internals together — are pairwise distinct, and so are all node
+    names — names of Nodes and reserved inlined node names together.
     (That `compileGraph` touches the scope only through these calls is checked by the driver on every
     case: the recorded trace replays to the same final scope.) -/
 theorem names_unique (ops : List Naming.TraceOp) (sc : Scope) (h : Naming.replay {} ops = .ok sc) :
     ((allPairs sc.var.frames).map (·.2) ++ allReserved sc.var.frames).Nodup ∧
-    ((allPairs sc.node.frames).map (·.2)).Nodup := by
+    ((allPairs sc.node.frames).map (·.2) ++ allReserved sc.node.frames).Nodup := by
   have hi : SInv sc := replay_inv ops ⟨empty_inv, empty_inv⟩ h
-  refine ⟨?_, hi.2.names⟩
-  rw [List.nodup_append]
-  refine ⟨hi.1.names, hi.1.res, ?_⟩
-  intro a ha b hb hab
-  subst hab
-  exact hi.1.disj a ha hb
+  constructor
+  · rw [List.nodup_append]
+    refine ⟨hi.1.names, hi.1.res, ?_⟩
+    intro a ha b hb hab
+    subst hab
+    exact hi.1.disj a ha hb
+  · rw [List.nodup_append]
+    refine ⟨hi.2.names, hi.2.res, ?_⟩
+    intro a ha b hb hab
+    subst hab
+    exact hi.2.disj a ha hb
 
 /-- …and a user-chosen (preset) name equal to a name some other Var already has makes the naming
     step fail — the build raises instead of emitting a duplicate. -/
